@@ -80,6 +80,10 @@ def ridge_oracle(ctx, rng, eng):
     import contextlib, io
     for it in range(25 if ctx.quick() else 400):
         Hm, Wm = rng.randrange(60, 160), rng.randrange(60, 200)
+        parallel = rng.random() < 0.4      # long parallel sloped ridges: vertical separation >= 15 at every column, bounding boxes overlap
+        if parallel:
+            Hm, Wm = rng.randrange(120, 220), rng.randrange(250, 420)
+        common_slope = rng.uniform(-0.08, 0.08)
         ds = rng.choice([1, 2, 4, 8])
         maps = np.zeros((Hm, Wm, 5), dtype=np.float32)
         n = rng.randrange(1, 6)
@@ -92,6 +96,15 @@ def ridge_oracle(ctx, rng, eng):
             x0 = rng.randrange(3, Wm // 2)
             x1 = rng.randrange(x0 + 8, Wm - 3)
             slope = rng.choice([0.0, 0.0, rng.uniform(-0.04, 0.04)])
+            if parallel:
+                x0, x1 = rng.randrange(3, 30), rng.randrange(Wm - 40, Wm - 3)
+                slope = common_slope
+                if not (12 <= y + min(0, slope * (x1 - x0)) and y + max(0, slope * (x1 - x0)) <= Hm - 12):
+                    y += 5
+                    if y > Hm - 12:
+                        break
+                    if not (12 <= y + min(0, slope * (x1 - x0)) and y + max(0, slope * (x1 - x0)) <= Hm - 12):
+                        continue
             up, down = rng.uniform(2, 9), rng.uniform(1, 5)
             endpoints = rng.random() < 0.5
             for x in range(x0, x1 + 1):
